@@ -151,7 +151,7 @@ package slice
 //@   loop 1: invariant above: forall k int :: {vs[k]} high <= k && k < len(vs) ==> apply(cmp, vs[k], target) > 0
 //@   loop 1: decreases high - low
 //@
-//@ pred chainOK(vs Slice, cmp func(T, T) int, prev []int, cl imap[int], m int, L int, strict bool) := forall x int :: {prev[x]} 0 <= x && x < m ==> 1 <= cl[x] && cl[x] <= L && (prev[x] == -1 <==> cl[x] == 1)
+//@ pred chainOK(vs Slice, cmp func(T, T) int, prev []int, cl imap[int], m int, L int, strict bool) := forall x int :: {prev[x]} {cl[x]} 0 <= x && x < m ==> 1 <= cl[x] && cl[x] <= L && (prev[x] == -1 <==> cl[x] == 1)
 //@+     && (prev[x] != -1 ==> 0 <= prev[x] && prev[x] < x && cl[prev[x]] == cl[x] - 1 && ord(cmp, vs[prev[x]], vs[x]) <= 0 && (strict ==> ord(cmp, vs[prev[x]], vs[x]) < 0))
 //@ pred tailsOK(vs Slice, cmp func(T, T) int, tails []int, cl imap[int], m int, strict bool) := (forall k int :: {tails[k]} 0 <= k && k < len(tails) ==> 0 <= tails[k] && tails[k] < m && cl[tails[k]] == k + 1)
 //@+     && (forall a int, b int :: {tails[a], tails[b]} 0 <= a && a < b && b < len(tails) ==> ord(cmp, vs[tails[a]], vs[tails[b]]) <= 0 && (strict ==> ord(cmp, vs[tails[a]], vs[tails[b]]) < 0))
@@ -169,13 +169,13 @@ package slice
 //@   at after "tails[replaceIdx] = i": ghost cl[i] = replaceIdx + 1
 //@   at loop 1 head: ghost p0 = snap(prev)
 //@   at loop 1 head: ghost t0 = snap(tails)
-//@   at loop 1 end: assert [C12] forall x int :: {prev[x]} 0 <= x && x < it1 ==> prev[x] == p0[prev.off + x]
-//@   at before "if replaceIdx == 0": assert [C12] 0 <= replaceIdx && replaceIdx < len(tails) && (forall k int :: {t0[tails.off + k]} 0 <= k && k < replaceIdx ==> ord(cmp, vs[t0[tails.off + k]], vs[i]) <= 0) && (forall k int :: {t0[tails.off + k]} replaceIdx <= k && k < len(tails) ==> ord(cmp, vs[i], vs[t0[tails.off + k]]) < 0)
+//@   at loop 1 end: assert [C12] forall x int :: {prev[x]} 0 <= x && x < it1 ==> prev[x] == p0[addr(prev, x)]
+//@   at before "if replaceIdx == 0": assert [C12] 0 <= replaceIdx && replaceIdx < len(tails) && (forall k int :: {t0[addr(tails, k)]} 0 <= k && k < replaceIdx ==> ord(cmp, vs[t0[addr(tails, k)]], vs[i]) <= 0) && (forall k int :: {t0[addr(tails, k)]} replaceIdx <= k && k < len(tails) ==> ord(cmp, vs[i], vs[t0[addr(tails, k)]]) < 0)
 //@   at after "prev[i] = -1": assert [C12] prev[i] == -1 && replaceIdx == 0
 //@   at after "prev[i] = tails[replaceIdx-1]": assert [C12] replaceIdx != 0 && prev[i] == tails[replaceIdx - 1] && 0 <= prev[i] && prev[i] < i && cl[prev[i]] == replaceIdx && ord(cmp, vs[prev[i]], vs[i]) <= 0
 //@   at before "tails[replaceIdx] = i": ghost p1 = snap(prev)
-//@   at after "tails[replaceIdx] = i": assert [C12] forall x int :: {prev[x]} 0 <= x && x <= i ==> prev[x] == p1[prev.off + x]
-//@   at after "tails[replaceIdx] = i": assert [C12] forall k int :: {tails[k]} 0 <= k && k < len(tails) && k != replaceIdx ==> tails[k] == t0[tails.off + k]
+//@   at after "tails[replaceIdx] = i": assert [C12] forall x int :: {prev[x]} 0 <= x && x <= i ==> prev[x] == p1[addr(prev, x)]
+//@   at after "tails[replaceIdx] = i": assert [C12] forall k int :: {tails[k]} 0 <= k && k < len(tails) && k != replaceIdx ==> tails[k] == t0[addr(tails, k)]
 //@   loop 1: invariant shape: 1 <= len(tails) && len(tails) <= it1 + 1 && it1 + 1 <= len(vs) && cap(tails) == len(vs) && len(prev) == len(vs) && fresh(tails) && fresh(prev) && tails.base != prev.base && unchanged(elems(vs)) && old_arrays_unchanged(tails)
 //@   loop 1: invariant tails: tailsOK(vs, cmp, tails, cl, it1 + 1, false)
 //@   loop 1: invariant chain: chainOK(vs, cmp, prev, cl, it1 + 1, len(tails), false)
@@ -200,12 +200,12 @@ package slice
 //@   at after "tails[replaceIdx] = i": ghost cl[i] = replaceIdx + 1
 //@   at loop 1 head: ghost p0 = snap(prev)
 //@   at loop 1 head: ghost t0 = snap(tails)
-//@   at loop 1 end: assert [C12] forall x int :: {prev[x]} 0 <= x && x < it1 ==> prev[x] == p0[prev.off + x]
-//@   at before "if replaceIdx == 0": assert [C12] 0 <= replaceIdx && replaceIdx < len(tails) && (forall k int :: {t0[tails.off + k]} 0 <= k && k < replaceIdx ==> ord(cmp, vs[t0[tails.off + k]], vs[i]) < 0) && (forall k int :: {t0[tails.off + k]} replaceIdx <= k && k < len(tails) ==> ord(cmp, vs[i], vs[t0[tails.off + k]]) <= 0) && (forall k int :: {t0[tails.off + k]} replaceIdx < k && k < len(tails) ==> ord(cmp, vs[i], vs[t0[tails.off + k]]) < 0)
+//@   at loop 1 end: assert [C12] forall x int :: {prev[x]} 0 <= x && x < it1 ==> prev[x] == p0[addr(prev, x)]
+//@   at before "if replaceIdx == 0": assert [C12] 0 <= replaceIdx && replaceIdx < len(tails) && (forall k int :: {t0[addr(tails, k)]} 0 <= k && k < replaceIdx ==> ord(cmp, vs[t0[addr(tails, k)]], vs[i]) < 0) && (forall k int :: {t0[addr(tails, k)]} replaceIdx <= k && k < len(tails) ==> ord(cmp, vs[i], vs[t0[addr(tails, k)]]) <= 0) && (forall k int :: {t0[addr(tails, k)]} replaceIdx < k && k < len(tails) ==> ord(cmp, vs[i], vs[t0[addr(tails, k)]]) < 0)
 //@   at after "prev[i] = -1": assert [C12] prev[i] == -1 && replaceIdx == 0
 //@   at after "prev[i] = tails[replaceIdx-1]": assert [C12] replaceIdx != 0 && prev[i] == tails[replaceIdx - 1] && 0 <= prev[i] && prev[i] < i && cl[prev[i]] == replaceIdx && ord(cmp, vs[prev[i]], vs[i]) < 0
 //@   at before "tails[replaceIdx] = i": ghost p1 = snap(prev)
-//@   at after "tails[replaceIdx] = i": assert [C12] forall x int :: {prev[x]} 0 <= x && x <= i ==> prev[x] == p1[prev.off + x]
+//@   at after "tails[replaceIdx] = i": assert [C12] forall x int :: {prev[x]} 0 <= x && x <= i ==> prev[x] == p1[addr(prev, x)]
 //@   loop 1: invariant shape: 1 <= len(tails) && len(tails) <= it1 + 1 && it1 + 1 <= len(vs) && cap(tails) == len(vs) && len(prev) == len(vs) && fresh(tails) && fresh(prev) && tails.base != prev.base && unchanged(elems(vs)) && old_arrays_unchanged(tails)
 //@   loop 1: invariant tails: tailsOK(vs, cmp, tails, cl, it1 + 1, true)
 //@   loop 1: invariant chain: chainOK(vs, cmp, prev, cl, it1 + 1, len(tails), true)
@@ -255,8 +255,8 @@ package slice
 //@   at loop 3 head: ghost p0 = snap(p)
 //@   at loop 3 head: ghost c0 = snap(c)
 //@   at loop 3 head: ghost i0 = i
-//@   at loop 3 end: assert [C12] forall k int :: {p[k]} 0 <= k && k <= len(as) ==> p[k] == p0[p.off + k]
-//@   at loop 3 end: assert [C12] forall k int :: {c[k]} 0 <= k && k <= len(as) && k != i0 ==> c[k] == c0[c.off + k]
+//@   at loop 3 end: assert [C12] forall k int :: {p[k]} 0 <= k && k <= len(as) ==> p[k] == p0[addr(p, k)]
+//@   at loop 3 end: assert [C12] forall k int :: {c[k]} 0 <= k && k <= len(as) && k != i0 ==> c[k] == c0[addr(c, k)]
 //@   loop 3: invariant [C12] mem: old_arrays_unchanged(p)
 //@   loop 3: invariant [C12] rows: 1 <= i && i <= len(as) + 1 && 1 <= j && j <= len(bs) && len(p) == len(as) + 1 && len(c) == len(as) + 1 && fresh(p) && fresh(c) && p.base != c.base && zero in nodes && p[0] == zero && c[0] == zero && len(as) >= 1
 //@   loop 3: invariant [C12] nodes: (forall s *seq :: {s in nodes} s in nodes ==> nodeBase(s, zero, as, bs, eq)) && (forall s *seq :: {s.prev} nodeLink(s, nodes))
